@@ -68,7 +68,7 @@ def gen_history(spec, fp, rnd, length, hier, force=None):
     names = list(spec.nodes)
     for step_ in range(length):
         kind = rnd.choice(['scalar', 'scalar', 'wild-scalar', 'wild-array', 'edge', 'node_values', 'edge_values',
-                           'partial-wild', 'add-edge'])
+                           'partial-wild', 'add-edge', 'zero', 'override-twice'])
         if force and step_ == 0:
             kind = force
         if kind == 'add-edge' and (hier or any(o[0] == 'add_edge_inplace' for o in ops)):
@@ -102,6 +102,35 @@ def gen_history(spec, fp, rnd, length, hier, force=None):
             e = exp.edges[i]
             ops.append(('update_edge', e.src, e.tgt, float(v)))
             exp.edges[i] = EdgeSpec(e.src, e.tgt, v, e.delay, e.spread, e.template, e.edge_overrides)
+        elif kind == 'zero':
+            # the value 0 is a value: on a node that is NOT the first of its type, as scalar and inside an array
+            pre = 'c1/' if hier else ''
+            ops.append(('update_var', f"{pre}a1/o1/k", 0.0))
+            exp.nodes[f"{pre}a1"].overrides[('o1', 'k')] = F(0)
+            tn, _, _ = addressed(spec, f"{allp}li/tau")
+            vs = [fp() for _ in tn]
+            vs[-1] = F(1)          # li divides by tau: 1 instead of 0 there, 0 goes to the gain below
+            ops.append(('update_var', f"{allp}li/tau", [float(v) for v in vs]))
+            for nn, v in zip(tn, vs):
+                exp.nodes[nn].overrides[('li', 'tau')] = v
+            tg, _, _ = addressed(spec, f"{allp}o1/g")
+            vg = [fp() for _ in tg]
+            vg[1] = F(0)
+            ops.append(('update_var', f"{allp}o1/g", [float(v) for v in vg]))
+            for nn, v in zip(tg, vg):
+                exp.nodes[nn].overrides[('o1', 'g')] = v
+            kw.setdefault('node_values', {})[f"{pre}a2/o1/c"] = 0.0
+            exp.nodes[f"{pre}a2"].overrides[('o1', 'c')] = F(0)
+        elif kind == 'override-twice':
+            # the same variable of the same node first through update_var (template level), then through
+            # apply(node_values=...): the value given at translation time wins
+            nn = rnd.choice(names)
+            op = spec.nodes[nn].ops[0]
+            var = rnd.choice([v for v, (k, _) in spec.ops[op].vars.items() if k == 'const'])
+            v1, v2 = fp(), fp()
+            ops.append(('update_var', f"{nn}/{op}/{var}", float(v1)))
+            exp.nodes[nn].overrides[(op, var)] = v1
+            kw.setdefault('node_values', {})[f"{nn}/{op}/{var}"] = float(v2)
         elif kind == 'add-edge':
             # update_template(edges=[...], in_place=True) adds an edge; the old AND the new edge stay addressable
             v, v2, v3 = fp(), fp(), fp()
@@ -257,6 +286,13 @@ def run(tier='quick', seed=0, only=None, verbose=False):
             jobs.append(dict(key=f"addedge:{seed}:{i}:shared={bool(i % 2)}|vec={vec}", seed=seed * 1000 + 900 + i,
                              shared=bool(i % 2), hier=False, length=1 + i % 3, vectorize=vec, force='add-edge',
                              spec=base_spec(bool(i % 2), False)[0]))
+    for i in range(2 if tier == 'quick' else 12):
+        for force in ('zero', 'override-twice'):
+            for vec in (True, False):
+                hier = bool(i % 2)
+                jobs.append(dict(key=f"{force}:{seed}:{i}:shared={bool((i // 2 + 1) % 2)}:hier={hier}|vec={vec}",
+                                 seed=seed * 1000 + 700 + i, shared=bool((i // 2 + 1) % 2), hier=hier, length=1 + i % 2,
+                                 vectorize=vec, force=force, spec=base_spec(bool((i // 2 + 1) % 2), hier)[0]))
     for i in range(4 if tier == 'quick' else 40):
         for on in ('derived', 'base'):
             jobs.append(dict(key=f"derive:{seed}:{i}:on={on}|vec={bool(i % 2)}", seed=seed * 1000 + 500 + i, shared=bool(i % 3),
